@@ -1043,8 +1043,14 @@ func runC10(e *Engine, r *Report, tier string) {
 		okSel := false
 		for _, g := range GuardsOf(d.RunCall) {
 			ci, ok := NormCond(g)
-			if ok && ci.Op == "==" && ci.Call != nil && callName(ci.Call) == "Equal" {
-				okSel = true
+			if !ok || ci.Op != "==" || ci.X == nil || ci.Y == nil {
+				continue
+			}
+			// an equality one side of which is a method's selector (GetMethodId()), in any spelling
+			for _, v := range []ssa.Value{ci.X, ci.Y} {
+				if c, ok := stripConv(v).(*ssa.Call); ok && callName(c) == "GetMethodId" {
+					okSel = true
+				}
 			}
 		}
 		r.Check(okSel, "R3", base+" selector", e.InstrPos(d.RunCall), "method chosen by its 4-byte selector", "method.Run is not guarded by a selector comparison")
@@ -1274,18 +1280,19 @@ func (e *Engine) allowanceDecrementShape(f *ssa.Function) bool {
 	okGuard := false
 	var cmpAmt ssa.Value
 	for _, g := range GuardsOf(set) {
-		ci, ok := NormCond(g)
-		if !ok {
+		rel, ok := RelOf(g)
+		if !ok || rel.A == nil || rel.B == nil {
 			continue
 		}
-		// normalised: Cmp(...) >= 0 on the passing branch
-		if c, ok := ci.X.(*ssa.Call); ok && callName(c) == "Cmp" && ci.Op == ">=" {
-			a := callArgs(c)
-			if len(a) == 2 && a[0] == gv {
-				if z, ok := constInt(ci.Y); ok && z == 0 && BranchFailsClean(g.If, !g.Pol, func(i ssa.Instruction) bool { return e.EffectOf(i) != "" }) {
-					okGuard = true
-					cmpAmt = a[1]
-				}
+		// allowance >= x on the passing branch, in any spelling (Cmp either way round, negated, mirrored)
+		isAllow := func(v ssa.Value) bool { return stripConv(v) == gv }
+		other := func(v ssa.Value) bool { return stripConv(v) != gv }
+		if rel.Says(">=", isAllow, other) && BranchFailsClean(g.If, !g.Pol, func(i ssa.Instruction) bool { return e.EffectOf(i) != "" }) {
+			okGuard = true
+			if stripConv(rel.A) == gv {
+				cmpAmt = rel.B
+			} else {
+				cmpAmt = rel.A
 			}
 		}
 	}
